@@ -57,7 +57,7 @@ int main(int argc, char** argv) {
     if (hc_is(0, "print")) {
       int start = (int)hc_int(2);
       const char* pre = "0123456789";
-      var args[64]; int na = 0, nconv = 0, drop = -1;
+      var args[64]; int na = 0, nconv = 0, drop = -1, showbad = 0;
       char* parts[128]; size_t plen[128]; int isconv[128]; int np = 0;
       fmt[0] = 0;
       for (int i = 3; i < hc_nw && np < 120; i++) {
@@ -92,6 +92,22 @@ int main(int argc, char** argv) {
           args[na++] = a;
           var t = new_raw(String, $S("")); show_to(a, t, 0);
           parts[np] = strdup(c_str(t)); plen[np] = strlen(c_str(t)); isconv[np] = 1; np++;
+          /* a container's text is not taken on trust: it must contain its elements' own show texts, each once, in iteration
+             order, joined the way that container kind joins them (built here from foreach + show of every element) */
+          if (w[1] == 'A' || w[1] == 'L' || w[1] == 'T' || w[1] == 'U') {
+            var body = new_raw(String, $S("")); int bp = 0, first = 1; size_t cnt = 0, lim = len(a) + 2;
+            if (w[1] != 'D') foreach (e in a) {
+              if (cnt++ > lim) break;
+              if (!first) bp = print_to(body, bp, ", ");
+              first = 0;
+              bp = show_to(e, body, bp);
+              if (w[1] == 'T') { bp = print_to(body, bp, ":"); bp = show_to(get(a, e), body, bp); }
+            }
+            const char* open_ = w[1] == 'T' ? "{" : w[1] == 'U' ? "(" : "[";  const char* close_ = w[1] == 'T' ? "}" : w[1] == 'U' ? ")" : "]";
+            var want = new_raw(String, $S("")); print_to(want, 0, "%s%s%s", $S((char*)open_), body, $S((char*)close_));
+            if (!strstr(c_str(t), c_str(want)) || cnt != len(a)) showbad++;
+            del_raw(body); del_raw(want);
+          }
           del_raw(t);
         }
       }
@@ -106,7 +122,7 @@ int main(int argc, char** argv) {
       ev_begin("print"); ev_str("sink", isfile ? "F" : "S"); ev_int("start", start); bytes_key("pre", pre, strlen(pre));
       ev_key("parts"); ev_s("["); for (int i = 0; i < np; i++) { if (i) ev_s(","); ev_s("["); for (size_t k = 0; k < plen[i]; k++) { if (k) ev_s(","); ev_i((unsigned char)parts[i][k]); } ev_s("]"); } ev_s("]");
       { long long ic[128]; for (int i = 0; i < np; i++) ic[i] = isconv[i]; ev_ints("isconv", ic, (size_t)np); }
-      bytes_key("out", outb, on); ev_int("ret", ret); ev_str("exc", hc_exc); ev_str("msg", hc_msg); ev_int("nargs", pass); ev_int("nconv", nconv);
+      ev_int("showbad", showbad); bytes_key("out", outb, on); ev_int("ret", ret); ev_str("exc", hc_exc); ev_str("msg", hc_msg); ev_int("nargs", pass); ev_int("nconv", nconv);
       bytes_key("fmt", fmt, strlen(fmt)); ev_int("line", cur_line); ev_end();
       HC_TRY(del_raw(s)); for (int i = 0; i < np; i++) free(parts[i]);
       continue;
